@@ -870,6 +870,17 @@ public:
     if (const auto *FD = dyn_cast_or_null<FunctionDecl>(VD->getParentFunctionOrMethod()))
       O["infunc"] = qn(FD);
     O["definition"] = VD->isThisDeclarationADefinition() != VarDecl::DeclarationOnly;
+    // constant initialiser of a const object (named constants: a rule sees the value, not the name)
+    if (bool(O["const"].getAsBoolean().getValueOr(false)) || VD->isConstexpr()) {
+      const VarDecl *Def = nullptr;
+      if (const Expr *Init = VD->getAnyInitializer(Def)) {
+        if (!Init->isValueDependent() && !Init->isTypeDependent()) {
+          LocalIds.clear();
+          NextLocal = 0;
+          O["init"] = serExpr(Init);
+        }
+      }
+    }
     Vars.push_back(std::move(O));
   }
 };
